@@ -1,6 +1,8 @@
 \* C29 PoSA: family pixie, chain configuration A (MCPoSA!SetsA), mode mc
 SPECIFICATION Spec
 CONSTANTS Family = "pixie"
+          Epoch = 0
+          CliqueFixed = FALSE
           Sets <- SetsA
           GenesisSigner = "c"
           G0 = 200
